@@ -66,3 +66,35 @@ def install_library_invariant():
         fn = getattr(L.Library, name)
         setattr(L.Library, name, icontract.ensure(library_views_consistent, error=err)(fn))
     _INSTALLED.add("library")
+
+
+# ------------------------------------------------------------------ Entry (C19)
+def entry_views_agree(self):
+    """fields, fields_dict and items() describe the same fields in the same order."""
+    COUNT["entry_invariant"] += 1
+    fields = list(self.fields)
+    keys = [f.key for f in fields]
+    why = None
+    if len(set(keys)) == len(keys):      # quantifier: distinct field keys
+        fd = self.fields_dict
+        if list(fd.keys()) != keys or any(fd[k] is not f for k, f in zip(keys, fields)):
+            why = "fields_dict differs from fields"
+        elif self.items()[2:] != [(f.key, f.value) for f in fields]:
+            why = "items() differs from fields"
+        elif self.items()[:2] != [("ENTRYTYPE", self.entry_type), ("ID", self.key)]:
+            why = "items() does not start with ENTRYTYPE/ID"
+    else:
+        COUNT["entry_invariant_out_of_quantifier"] += 1
+    LAST["entry_invariant"] = why
+    return why is None
+
+
+def install_entry_invariant():
+    if "entry" in _INSTALLED:
+        return
+    from bibtexparser import model as M
+    err = lambda self: InvariantBroken(LAST.get("entry_invariant"))  # noqa: E731
+    for name in ("set_field", "pop", "__setitem__", "__delitem__"):
+        fn = getattr(M.Entry, name)
+        setattr(M.Entry, name, icontract.ensure(entry_views_agree, error=err)(fn))
+    _INSTALLED.add("entry")
